@@ -84,12 +84,15 @@ prop(
 
 prop(
     "C12",
-    lean_modules=["BloomVerif.Lemmas.MergePlan", "BloomVerif.Props.C12"],
+    lean_modules=["BloomVerif.Lemmas.MergePlan", "BloomVerif.Lemmas.MergeKey", "BloomVerif.Props.C12"],
     technique="Lean 4 proof (loop invariants over the greedy block grouping and file grouping folds) + regenerated blocksWithinMergeLimits + exact differential comparison of groupings",
     design_ref="DESIGN.md section 4 C12",
     text="Machine-checked invariants of the greedy folds for every block/file population and limit setting: a combined block stays within MaxRowGroupRows/MaxRowGroupBytes (cumulative, not only pairwise) and has one merge key; "
          "groups partition the blocks; one merge groups at most MaxFilesToMergePerOperation files, each group has >= 2 files and totals at most MaxFileSize (metadata on-disk sizes). "
-         "identifyFileMergeGroups is compared exactly with the model on metadata-only populations (candidate order is an input: the Go sort is unstable), and the block grouping observed in real merges is compared with the model whenever the order is determined.",
+         "identifyFileMergeGroups is compared exactly with the model on metadata-only populations (candidate order is an input: the Go sort is unstable), and the block grouping observed in real merges is compared with the model whenever the order is determined. "
+         "The bucket key itself (blockMergeKey: uvarint-length-prefixed partition id and sorted minmax key names) is modelled byte for byte and proved to identify exactly (partition, key-name set) "
+         "(merge_key_exact, via prefix-freeness of uvarint); the implementation's key bytes are compared with the model's on adversarial name families (prefixes/concatenations of one another, "
+         "names of 127/128/16384 bytes, empty names, separator-like bytes) and the same families are driven through real merges.",
     trusted_base=[KERNEL, AXIOMS, TGEN, TDIFF, HOOKS, "modelled, not verified: sort.Slice (order taken as input and re-derived only when no two candidates tie); Go map iteration over partitions (groups compared as sets)"],
     assumptions=["size = the sum of the source blocks' on-disk sizes recorded in metadata (DESIGN.md section 3)", "row counts and sizes do not overflow int64 when summed"],
 )
